@@ -22,6 +22,9 @@ class H:
         self.twin_desc = twin_desc
         self.nonterm = nonterm        # an unwinding-assertion failure is itself the finding (termination oracle)
 
+    def key(self):
+        return self.name + "@" + self.build
+
     def group(self):
         return (self.build, self.mode, self.stubs)
 
@@ -254,4 +257,69 @@ add(
       "ShortNameGenerator::new (runs before name validation in create_file/create_dir/rename) never panics",
       "every valid UTF-8 string of 0..=5 bytes (empty, multi-byte first character, dots/spaces only, ...); memchr stubs",
       stubs=True),
+)
+
+# ------------------------------------------------------------------ file.rs
+FILE_B = ("File value built directly over a windowed device (real FAT window, payload tracked by one arbitrary watched address): "
+          "512-byte clusters, file chain 2->3->5 (fragmented), neighbour cluster 4 in use, 6/7 free; cursor CLUSTER INDEX concrete per "
+          "harness, position inside the cluster / file size inside its last cluster / buffer length <= 600 / buffer bytes / clock symbolic")
+for n, props in (("read16_start", None), ("read16_c0", None), ("read16_c1", None), ("read16_c2_tail", None), ("read12_c1", None),
+                 ("read32_c1_accessed", ["C02", "C18"]), ("read16_single_cluster", None), ("read16_empty_file", None)):
+    add(H("file::verif::" + n, props or ["C02", "C13"],
+          "File::read returns min(len, left in cluster, left in file) bytes from the device address of file position p (witness byte), advances the "
+          "cursor, keeps the representation invariant, writes nothing and leaves nothing pending (access date stamped from the provider only when enabled)",
+          FILE_B))
+for n in ("write16_start", "write16_c0", "write16_c1_dirty_mount", "write16_c2_tail_and_alloc", "write12_c2_tail_and_alloc",
+          "write32_c2_tail_and_alloc", "write16_empty_file", "write12_single_cluster", "write32_c0"):
+    add(H("file::verif::" + n, ["C02", "C11", "C12", "C18"],
+          "File::write stores min(len, left in cluster) bytes at the cursor: one payload write inside the target cluster (existing, or the first free one "
+          "linked to the chain end / recorded as first cluster), status byte written BEFORE it when the volume was clean, FAT copies identical and "
+          "otherwise unchanged, size = max(size, new offset), modification stamp from the provider, creation stamp untouched, invariant kept",
+          FILE_B))
+for n in ("seek16_from_start", "seek16_from_c0", "seek16_from_c2", "seek12_from_c1", "seek32_from_c1", "seek16_empty_file"):
+    add(H("file::verif::" + n, ["C02"],
+          "File::seek(Start|Current|End, any 64-bit value): negative target => InvalidInput and no move; beyond the end clamps to the size; result "
+          "re-establishes the invariant (cursor cluster = chain[(offset-1)/cluster], previous cluster on a boundary); no write",
+          FILE_B))
+for n in ("truncate16_at_zero", "truncate16_c0", "truncate16_c1", "truncate16_c2", "truncate12_c0", "truncate32_c1", "truncate32_at_zero"):
+    add(H("file::verif::" + n, ["C02", "C03", "C05"],
+          "File::truncate: size = offset, chain cut to ceil(offset/cluster) clusters (kept links intact, new tail EOC, rest freed, empty file owns no "
+          "cluster), other clusters untouched, FAT copies identical, no payload write",
+          FILE_B))
+add(
+    H("file::verif::flush_writes_entry_then_flushes_device", ["C14", "C13", "C04"],
+      "File::flush: pending metadata => exactly the 32 entry bytes at the entry position (witness byte over all 32) and then a device flush after the "
+      "last write; nothing pending => no write; dirty bit untouched", "all widths, symbolic size/new size/timestamps"),
+    H("file::verif::drop_writes_entry_then_flushes_device", ["C14", "C13", "C04"],
+      "same through the destructor", "all widths, symbolic size/new size/timestamps"),
+    twin("file::verif::twin_flush_never_writes", ["C14", "C13", "C04"], "claims flush never writes", "total_writes == 0"),
+    twin("file::verif::twin_write_never_allocates", ["C02", "C11"], "claims a write at the end of the chain allocates nothing", "fat_writes == 0"),
+    H("file::verif::extents16", ["C04", "C20"], "File::extents = clusters of the chain in order at their device offsets, sizes sum to the file size", FILE_B),
+    H("file::verif::extents12_two_clusters", ["C04"], "same, two clusters, FAT12", FILE_B),
+    H("file::verif::extents32_empty", ["C04"], "an empty file has no extent", FILE_B),
+)
+
+# ------------------------------------------------------------------ dir_entry.rs
+add(
+    H("dir_entry::verif::slot_roundtrip", ["C04", "C08", "C17"],
+      "DirEntryData::deserialize of ANY 32 bytes: no failure/panic, every field at the specification's offset, long/short classification by attribute, "
+      "accessors (deleted/end/volume/dir/size/first cluster with and without the high word, timestamps, short name) total; serialize reproduces the bytes "
+      "except the two undefined attribute bits", "all 2^256 slot contents"),
+    H("dir_entry::verif::short_name_decode", ["C08", "C17"],
+      "ShortName::new: base/extension trimmed of trailing spaces, dot only with extension, 0x05 -> 0xE5, length <= 12", "all 2^88 raw short names"),
+    H("dir_entry::verif::lowercase_flags", ["C08"],
+      "lower-case flags (reserved byte bits 3/4) lower-case base and extension independently, ASCII letters only", "all raw names and flag bytes"),
+    H("dir_entry::verif::entry_time_fields", ["C18"],
+      "set_created/modified/accessed -> serialize -> deserialize -> getters: creation at 10 ms, modification at 2 s, access at 1 day; no other field moves",
+      "every valid date and time (full domain) x arbitrary other entry contents"),
+    H("dir_entry::verif::renamed_keeps_body", ["C18", "C01"], "renamed() changes the 11 name bytes only", "arbitrary entry"),
+    H("dir_entry::verif::editor_flush_writes_entry_once", ["C11", "C13", "C14", "C18"],
+      "DirEntryEditor: setters latch exactly on change; flush writes exactly [pos, pos+32) with the serialized entry iff latched, clears the latch, "
+      "never calls device flush; a second flush writes nothing", "arbitrary entry, position <= 2^43, symbolic new size / timestamp"),
+    H("dir_entry::verif::editor_first_cluster", ["C02", "C04", "C08"],
+      "set_first_cluster stores the high word only on FAT32, latches only on change, first_cluster() returns it", "all widths, any cluster"),
+    H("dir_entry::verif::upper_ascii_agree", ["C19", "C15"],
+      "char_to_uppercase(c) for c < 0x80 yields exactly the ASCII upper-case character (one char)", "all 128 ASCII values; run in unicode and non-unicode build"),
+    H("dir_entry::verif::upper_ascii_agree", ["C19"],
+      "same in the build without the unicode feature", "all 128 ASCII values", build="nounicode"),
 )
